@@ -920,7 +920,11 @@ func newMessage(gen *Plugin, f *File, parent *Message, desc protoreflect.Message
 			name += "_"
 		}
 		usedNames[name] = true
-		usedNames["Get"+name] = hasGetter
+		if hasGetter {
+			// Do not store hasGetter itself: for a name without getter that
+			// would release "Get"+name if an earlier field already owns it.
+			usedNames["Get"+name] = true
+		}
 		return name
 	}
 	for _, field := range message.Fields {
